@@ -115,6 +115,8 @@ type Config struct {
 	// InlineGo analyses `go func(){…}()` closures in place at the spawn point
 	// (events flagged InGo); a panic escaping the goroutine ends only the goroutine.
 	InlineGo  bool
+	// Keep lists functions that must stay opaque calls (never analysed in place).
+	Keep      map[*ssa.Function]bool
 	MaxPaths  int
 	MaxVisits int
 	MaxDepth  int
@@ -978,7 +980,7 @@ func (in *Interp) funcValueInfo(instr ssa.Instruction, f *Sym) *CallInfo {
 }
 
 func (in *Interp) shouldInline(st *State, ci *CallInfo) bool {
-	if ci.Static == nil || ci.Static.Blocks == nil {
+	if ci.Static == nil || ci.Static.Blocks == nil || in.cfg.Keep[ci.Static] {
 		return false
 	}
 	if len(st.frames) > in.cfg.MaxDepth+2 {
